@@ -169,6 +169,27 @@ def showOuts (l : List Stream.Out) : String :=
     | .timeout => " timeout"
     | .closed c => s!" closed:{c}")
 
+/-- over TLS the reason a connection ends is not visible to the reader loop -/
+def showOutsTls (l : List Stream.Out) : String :=
+  "stream" ++ String.join (l.map fun
+    | .pkt b => " pkt:" ++ toHex b
+    | .timeout => " timeout"
+    | .closed _ => " closed")
+
+def tlsStreamModel (args : List String) : String :=
+  match args with
+  | mode :: timeout :: evs =>
+    match timeout.toNat?, parseEvs evs with
+    | some t, some evs =>
+      let s : Stream.Sock := { script := evs }
+      let fuel := (Stream.dataOf evs).length + evs.length + 4
+      if t = 0 then "bad-op"
+      else if mode = "client" then showOutsTls (Stream.clientLoop fuel s 0)
+      else if mode = "server" then showOutsTls (Stream.tlsServerLoop fuel s)
+      else "bad-op"
+    | _, _ => "bad-op"
+  | _ => "bad-op"
+
 def streamModel (args : List String) : String :=
   match args with
   | mode :: timeout :: evs =>
@@ -184,7 +205,7 @@ def streamModel (args : List String) : String :=
 
 /-- C16 on what the implementation extracted: always a prefix of the stream's own framing; and when the
     peer never stalls and closes at the end, exactly that framing -/
-def streamSpec (args impl : List String) : String :=
+def streamSpec (args impl : List String) (tls : Bool := false) : String :=
   if impl.any (·.startsWith "crash") then "bad sanitizer-or-crash" else
   match args with
   | _ :: _ :: evs =>
@@ -201,7 +222,7 @@ def streamSpec (args impl : List String) : String :=
         (if impl.contains "timeout" then "bad C16:timeout-reported-though-the-peer-never-stalled"
          else if gotPk.length ≠ wantPk.length then "bad C16:packets-of-a-complete-stream-missing"
          else match want.getLast?, impl.getLast? with
-           | some (.closed c), some t => if c ≠ -1 && t ≠ s!"closed:{c}" then "bad C16:invalid-length-field-did-not-end-the-connection" else "ok"
+           | some (.closed c), some t => if !tls && c ≠ -1 && t ≠ s!"closed:{c}" then "bad C16:invalid-length-field-did-not-end-the-connection" else "ok"
            | _, _ => "ok")
       else "ok"
   | _ => "bad-op"
@@ -369,6 +390,7 @@ def model (op : String) (args : List String) : String :=
     | some c, some i => showLookup (DynRealm.dynLookup c i)
     | _, _ => "bad-op"
   | "tcpstream", args => streamModel args
+  | "tlsstream", args => tlsStreamModel args
   | "radlen", [h] => (match ofHex h with | some b => toString (Stream.checkedRadLength b) | none => "bad-op")
   | "decttl", [h] =>
     match ofHex h with
@@ -433,6 +455,7 @@ def model (op : String) (args : List String) : String :=
 def spec (op : String) (args impl : List String) : String :=
   match op, args, impl with
   | "tcpstream", args, _ => streamSpec args impl
+  | "tlsstream", args, _ => streamSpec args (impl.map fun t => if t = "closed" then "closed:-1" else t) true
   | "radlen", [h], [r] =>
     -- C16: a length field is accepted (positive result = that length) exactly when it is 20..4096
     (match ofHex h, r.toInt? with
